@@ -63,8 +63,10 @@ pub enum Op {
     /// arm: the `nth` write from now on replica r fails, `repeat` writes in a row
     FailWrites { r: usize, nth: u32, repeat: u32 },
     DiskFull { r: usize, on: bool },
-    /// read(None) and compare with the model (no state change)
-    Read { r: usize },
+    /// an observation without state change: what 0 = read(None), 1 = has_staging(), 2 = in_conflict().
+    /// The generator's own looks at a replica are recorded as such ops: they touch the library's
+    /// caches and consume scheduling / loop-order decisions, so a replay must repeat them.
+    Read { r: usize, what: u8 },
     /// C01 bounded liveness, self-contained: heal, flush the transport, reload time-travelled
     /// replicas, commit-or-unstage everywhere, then rounds of "every ordered pair melds, everyone
     /// refreshes"; within N+1 rounds every meld must return nothing and all states must be equal
@@ -81,7 +83,7 @@ impl Op {
         match self {
             Update { r, .. } | Commit { r, .. } | Meld { r, .. } | Refresh { r } | Reload { r } | ReloadUntil { r, .. }
             | Resolve { r, .. } | Unstage { r } | StageRoundTrip { r } | Snapshot { r } | ObjOp { r, .. } | Restart { r }
-            | FailWrites { r, .. } | DiskFull { r, .. } | Read { r } => Some(*r),
+            | FailWrites { r, .. } | DiskFull { r, .. } | Read { r, .. } => Some(*r),
             Send { to, .. } | SendAll { to, .. } => Some(*to),
             Tick | Partition { .. } | Heal | Converge { .. } => None,
             SameEdit { a, .. } => Some(*a),
@@ -142,7 +144,7 @@ impl Op {
             Restart { r } => json!({"op":"restart","r":r}),
             FailWrites { r, nth, repeat } => json!({"op":"failwrites","r":r,"nth":nth,"repeat":repeat}),
             DiskFull { r, on } => json!({"op":"diskfull","r":r,"on":on}),
-            Read { r } => json!({"op":"read","r":r}),
+            Read { r, what } => json!({"op":"read","r":r,"what":what}),
             Converge { commit } => json!({"op":"converge","commit":commit}),
             SameEdit { a, b, doc } => json!({"op":"same_edit","a":a,"b":b,"doc":doc}),
         }
@@ -175,7 +177,7 @@ impl Op {
             "restart" => Op::Restart { r: u("r")? },
             "failwrites" => Op::FailWrites { r: u("r")?, nth: u32_("nth")?, repeat: u32_("repeat")? },
             "diskfull" => Op::DiskFull { r: u("r")?, on: b("on") },
-            "read" => Op::Read { r: u("r")? },
+            "read" => Op::Read { r: u("r")?, what: u("what").unwrap_or(0) as u8 },
             "converge" => Op::Converge { commit: b("commit") },
             "same_edit" => Op::SameEdit { a: u("a")?, b: u("b")?, doc: o.get("doc").cloned().ok_or("missing doc")? },
             other => return Err(format!("unknown op {}", other)),
